@@ -1644,7 +1644,7 @@ class LimitedLengthFile(io.RawIOBase):
 
 
 def _get_multipart_boundary(ctype):
-    m = re.search(r"boundary=([^ ]+)", ctype, re.I)
+    m = re.search(r"boundary=([^ ;]+)", ctype, re.I)
 
     if m:
         return text_(m.group(1).strip('"'))
